@@ -15,8 +15,9 @@ import (
 
 // ipCase is one finished input printed by GenIpDict.tla.  Keys live in ONE ordered address space
 // (16-byte order): 0..a is ::k, a+1..2a+1 is the IPv4 address 0.0.0.(k-a-1) (= ::ffff:0.0.0.n),
-// 2a+2..3a+2 is ::1:0:0:(k-2a-2), just above the IPv4-mapped block.  exp is the set of probe keys
-// (0..3a+2) the spec says are contained.
+// 2a+2..3a+2 is ::1:0:0:(k-2a-2), just above the IPv4-mapped block, 3a+3..4a+2 are the a highest
+// addresses of the space (4a+2 is ffff:ffff:ffff:ffff:ffff:ffff:ffff:ffff).  exp is the set of
+// probe keys (0..4a+2) the spec says are contained.
 type ipCase struct {
 	ID   int      `json:"id"`
 	A    int      `json:"a"`
@@ -41,10 +42,17 @@ func keyIP(a, k int, short bool) net.IP {
 			return ip.To4()
 		}
 		return ip
-	default:
+	case k <= 3*a+2:
 		ip := make(net.IP, 16)
 		ip[9] = 1 // ::1:0:0:n
 		ip[15] = byte(k - 2*a - 2)
+		return ip
+	default: // top of the space: 4a+2 is the highest address
+		ip := make(net.IP, 16)
+		for i := range ip {
+			ip[i] = 0xff
+		}
+		ip[15] = byte(0xff - (4*a + 2 - k))
 		return ip
 	}
 }
@@ -191,7 +199,7 @@ func ipdictRun() {
 		bad := ""
 		detail := ""
 		p = vh.Guard(func() {
-			for k := 0; k <= 3*c.A+2; k++ {
+			for k := 0; k <= 4*c.A+2; k++ {
 				for _, short := range []bool{false, true} {
 					if short && !isV4(c.A, k) {
 						continue
@@ -207,8 +215,8 @@ func ipdictRun() {
 						} else {
 							bad = "false-hit/" + path
 						}
-						detail = fmt.Sprintf("Search(%s) = %v, spec says %v; ranges %v singles %v (keys 0..%d are ::k, %d..%d are 0.0.0.(k-%d), above ::1:0:0:(k-%d))",
-							keyIP(c.A, k, short), hit, exp[k], c.R, c.S, c.A, c.A+1, 2*c.A+1, c.A+1, 2*c.A+2)
+						detail = fmt.Sprintf("Search(%s) = %v, spec says %v; ranges %v singles %v (keys 0..%d are ::k, %d..%d are 0.0.0.(k-%d), %d..%d ::1:0:0:(k-%d), %d is ffff:..:ffff)",
+							keyIP(c.A, k, short), hit, exp[k], c.R, c.S, c.A, c.A+1, 2*c.A+1, c.A+1, 2*c.A+2, 3*c.A+2, 2*c.A+2, 4*c.A+2)
 					}
 				}
 			}
